@@ -178,7 +178,7 @@ def main(args):
         if args.verbose:
             u = res['unit']
             print('[%d/%d] %s %s L=%s %s %s %s unknown=%s valid_paths=%s limit=%s' % (done, total, u['module'], u['prefix'], u['L'], u['kind'], res.get('outcomes', res.get('error', res.get('skipped'))), res.get('wall_s'), res.get('unknown'), res.get('valid_paths'), res.get('limit')), file=sys.stderr)
-    for res in common.run_units(unit_fn, units, (units[0]['timeout'] * 2 + 60) if units else 60, progress, deadline):
+    for res in common.run_units(unit_fn, units, (lambda u: u.get('timeout', 60) * 2 + 60), progress, deadline):
         for k in lem:
             lem[k] += res.get('lemmas', {}).get(k, 0)
         rep.add_unit(res)
